@@ -757,6 +757,11 @@ impl DtlsInner {
                             ctx.incomplete_msg_seq = msg.message_seq;
                         }
 
+                        if msg.fragment_offset as usize != ctx.incomplete_handshake.len() {
+                            // Duplicate or out-of-order fragment: it does not continue the
+                            // reassembly buffer. Drop it; a gap is closed by retransmission.
+                            continue;
+                        }
                         ctx.incomplete_handshake.extend_from_slice(&msg.body[..]);
 
                         if ctx.incomplete_handshake.len() < msg.total_length as usize {
